@@ -17,7 +17,7 @@ ALPHABET = ["", "a", "b", "a b", "a  b", " a", "a<&>\"", "ä€", "a\tb", "a\nb"
 SMALL = ["", "a", "b", "a b", " a"]
 SWITCHES = [
     {"col_runs": True}, {"row_runs": True}, {"all_spaces_as_s": True}, {"explicit_c": True}, {"paragraphs": True}, {"span_at": 1, "spans": "head"}, {"span_at": 2, "spans": "tail"},
-    {"empty_as_p": True}, {"encoding": "UTF-16"}, {"filler": True}, {"span_range": [1, 5]}, {"span_range": [0, 4], "span_nested": True},
+    {"empty_as_p": True}, {"encoding": "UTF-16"}, {"filler": True}, {"span_range": [1, 5]}, {"span_range": [0, 4], "span_nested": True}, {"annotations": True},
 ]
 STRUCTURED = [
     [["a", "a", "a", "b"], ["a", "a", "a", "b"], ["b", "", "", ""]],
